@@ -207,10 +207,21 @@ pub fn from_utf8_stub(v: &[u8]) -> Result<&str, core::str::Utf8Error> {
 /// same counter.
 pub static mut ALLOC_BYTES: usize = 0;
 pub static mut ALLOC_CALLS: usize = 0;
+extern "C" {
+    fn malloc(n: usize) -> *mut u8;
+}
 pub unsafe fn count_alloc_stub(l: std::alloc::Layout) -> *mut u8 {
-    ALLOC_BYTES += l.size();
-    ALLOC_CALLS += 1;
-    std::alloc::alloc_zeroed(l)
+    // CBMC's `malloc` (uninitialised contents, like the real `alloc`).  The
+    // first version returned `std::alloc::alloc_zeroed(l)`: with CBMC 6.11 a
+    // calloc-ed block combined with the writes to the counters made the drop of
+    // a `Vec<Vec<_>>` holding an empty inner vector fail `__rust_dealloc`'s
+    // checks spuriously (not reproducible natively or under Miri; DESIGN §7b).
+    let r = malloc(l.size());
+    let b = core::ptr::addr_of_mut!(ALLOC_BYTES);
+    *b = (*b).wrapping_add(l.size());
+    let c = core::ptr::addr_of_mut!(ALLOC_CALLS);
+    *c = (*c).wrapping_add(1);
+    r
 }
 pub fn alloc_reset() {
     unsafe { ALLOC_BYTES = 0; ALLOC_CALLS = 0; }
